@@ -17,9 +17,9 @@ import (
 
 	sdkmath "cosmossdk.io/math"
 	codectypes "github.com/cosmos/cosmos-sdk/codec/types"
-	"github.com/cosmos/gogoproto/proto"
 	sdk "github.com/cosmos/cosmos-sdk/types"
 	distrtypes "github.com/cosmos/cosmos-sdk/x/distribution/types"
+	"github.com/cosmos/gogoproto/proto"
 	"github.com/palomachain/paloma/v2/x/skyway/keeper"
 	"github.com/palomachain/paloma/v2/x/skyway/types"
 	valsettypes "github.com/palomachain/paloma/v2/x/valset/types"
